@@ -58,6 +58,8 @@ type Result struct {
 	Extra      map[string]int64 `json:"extra,omitempty"`
 	Sample     any              `json:"sample,omitempty"`
 	More       []Finding        `json:"more,omitempty"` // additional violations found in the same case
+	Ms         int64            `json:"ms,omitempty"`   // wall time of the case
+	Dirty      bool             `json:"dirty,omitempty"` // the case left running goroutines behind: restart the worker
 }
 
 // Finding is an additional violation reported by a case.
@@ -159,7 +161,7 @@ func Main(p Property) {
 		code := 0
 		for _, c := range p.Plan(*tier, seed) {
 			if strings.Contains(c.ID, *only) {
-				r := runOne(p, c)
+				r := runOneCatch(p, c)
 				b, _ := json.MarshalIndent(r, "", " ")
 				fmt.Println(string(b))
 				if r.Verdict == Violated {
@@ -194,8 +196,10 @@ func runOne(p Property, c Case) (res Result) {
 				done <- Result{ID: c.ID, Verdict: Inconclusive, Key: "harness-panic", Msg: fmt.Sprintf("panic in harness/case goroutine: %v\n%s", e, buf)}
 			}
 		}()
+		t0 := time.Now()
 		r := p.Run(c)
 		r.ID = c.ID
+		r.Ms = time.Since(t0).Milliseconds()
 		done <- r
 	}()
 	select {
@@ -211,6 +215,19 @@ func runOne(p Property, c Case) (res Result) {
 		}
 		panic(hangExit{Result{ID: c.ID, Verdict: Inconclusive, Key: "watchdog", Msg: "case watchdog fired", Witness: trimDump(string(buf))}})
 	}
+}
+
+func runOneCatch(p Property, c Case) (r Result) {
+	defer func() {
+		if e := recover(); e != nil {
+			if h, ok := e.(hangExit); ok {
+				r = h.r
+				return
+			}
+			panic(e)
+		}
+	}()
+	return runOne(p, c)
 }
 
 func trimDump(s string) string {
@@ -267,7 +284,7 @@ func runWorker(p Property, shardFile, outFile string) int {
 			r = runOne(p, c)
 		}()
 		emit("RESULT", r)
-		if hung {
+		if hung || r.Dirty {
 			// goroutines of the hung case cannot be killed: ask for a fresh process
 			return 3
 		}
@@ -513,6 +530,18 @@ func report(p Property, tier string, seed int64, cases []Case, results []Result,
 			viols = append(viols, viol{r, f.Key, f.Msg, f.Witness})
 		}
 	}
+	if os.Getenv("VERIF_SLOW") != "" {
+		sl := append([]Result(nil), results...)
+		sort.Slice(sl, func(i, j int) bool { return sl[i].Ms > sl[j].Ms })
+		var tot int64
+		for _, r := range sl {
+			tot += r.Ms
+		}
+		fmt.Printf("SLOW total case-ms=%d\n", tot)
+		for i := 0; i < 25 && i < len(sl); i++ {
+			fmt.Printf("SLOW %6dms %s\n", sl[i].Ms, sl[i].ID)
+		}
+	}
 	missing := len(cases) - len(results)
 	exit := 0
 	newViol := 0
@@ -645,7 +674,7 @@ func runReplay(p Property, path string) int {
 		n = 20
 	}
 	for i := 0; i < n; i++ {
-		r := runOne(p, rf.Case)
+		r := runOneCatch(p, rf.Case)
 		if r.Verdict == Violated || len(r.More) > 0 {
 			hits++
 			if hits == 1 {
